@@ -19,6 +19,23 @@ E2 twin check, exhaustive inside stated bounds.
      and at every brace-elision level; elsewhere pointer atoms rotate over the first eight forms of each list.
    - unnamed-bitfield: structs/unions of 1-3 members with one unnamed bit-field (int :3, int :0, unsigned char :5) at
      every position (6.7.9p9: takes no initializer); wide-bitfield: bit-fields of width 33, 40, 64.
+   - float: floating leaves are dumped BYTEWISE (the 4 bytes of a float, the 8 bytes of a double, the 10 significant
+     bytes of an x87 long double) and compared with the exactly computed, correctly rounded representation.  One
+     arithmetic atom per spelling takes EVERY constant of models/c05_init.NUM_ATOMS (36 constants: 0.1 / 0.1f / 0.1L,
+     1.0L/3, 1.0f/3, 1.0/3, casts, long double constants just above / below a rounding midpoint of float and of
+     double, exact ties, 2^24+1 / 2^53+1 / 2^64-1 / 2^63-1 as floating AND as integer constants, -0.0, 2.9 / -2.9f /
+     255.9 (truncation), subnormals, FLT_MAX) - on every arithmetic scalar type (floating constants for integer
+     leaves wherever C11 defines the conversion, integer constants for floating leaves) and on the leaves of float /
+     double / long double arrays, structs, unions, packed structs, arrays of structs, flexible array members and
+     bit-fields, static and automatic, positional, designated and at brace-elision levels.  (A guard recomputes
+     which constants round differently when taken through double or float first and fails the run when none does.)
+   - string: one string literal per spelling takes every variant of string_variants(): an embedded null character at
+     the first / middle / last position and at the first two positions, escape sequences and extended characters
+     (\\n \\377 \\x7f \\\\ \\" \\0 \\t, e-acute, euro sign, U+1F600: multibyte in "" and u8"", one element in u"" U"" L"", a
+     surrogate pair in u""; three variants starting at different pieces so that every piece occurs), at the
+     lengths exact fit / exact fit with terminator / shorter, for arrays of char, signed char, unsigned char,
+     char16_t, char32_t, wchar_t of bound 4, 6 and unknown bound (thorough: 2, 3, 5 too), plain, braced, designated, as
+     members, as rows of 2-D arrays, in unions, as flexible array member.  Every element up to sizeof is dumped.
  * For every type: EVERY initializer spelling the 6.7.9 grammar allows with <= A expression/string atoms, <= D designated
    items (paths up to 3 designators, GNU ranges), positional continuation after every designator, every brace-elision
    level, braced and string forms, overriding, short lists, trailing commas, braces around scalars.  Constraint
@@ -78,7 +95,7 @@ def instantiate(shape, rot):
             cnt['w'] += 1
             key, w = BFWP[(cnt['w'] - 1 + rot) % len(BFWP)]
             return ('bf', key, w)
-        if k == 'sc':
+        if k in ('sc', 'bf'):
             return s
         if k == 'arr':
             return ('arr', go(s[1]), s[2])
@@ -276,6 +293,42 @@ def shapes_addr(tier):
     return out
 
 
+FL, DB, IN = ('sc', 'float'), ('sc', 'double'), ('sc', 'int')
+
+
+def shapes_float(tier):
+    """Floating family: float / double / long double leaves (and integer leaves that take floating constants) as
+    elements and members - the struct/union forms of a plain declaration, a packed struct (long double at offset 1), an
+    array of structs, a flexible array member, bit-fields.  The scalars themselves are in the base universe."""
+    out = [arr(LD, 2), arr(FL, None), arr(DB, 3), st(CH, arr(LD, 2), FL), st(FL, DB, LD), un(IN, LD), pk(CH, LD, FL),
+           arr(st(FL, LD), 2), st(IN, arr(LD, None)), st(LO, ('sc', 'ulong'), ('sc', 'uchar')), st(('bf', 'int', 7), FL, ('bf', 'ulong', 40))]
+    if tier != "quick":
+        out += [arr(FL, 3), arr(DB, None), arr(LD, None), arr(arr(LD, 2), 2), st(st(FL, LD), DB), un(FL, DB), un(LD, CH), pk(SH, DB, CH, FL),
+                arr(un(FL, LD), 2), st(IN, arr(st(FL, DB), None)), st(anon(un(FL, IN)), LD), arr(('sc', 'ulong'), 2), arr(('sc', 'bool'), 2),
+                stx((CH, LD), [('al', 1, 32)]), st(('sc', 'short'), ('sc', 'uint'), ('sc', 'schar'))]
+    return out
+
+
+def shapes_string(tier):
+    """String family: character arrays of every element type that a string literal can initialize (char, signed char,
+    unsigned char; char16_t, char32_t, wchar_t as unsigned short, unsigned int, int) with bounds 4, 6 (thorough: 2, 3, 5)
+    and unknown bound, plain, as struct/union members, as rows of 2-D arrays, as a flexible array member."""
+    q = tier == "quick"
+    keys = ('char', 'uchar', 'schar', 'ushort', 'uint', 'int')
+    out = []
+    for n in ((4, None) if q else (4, None, 6, 2, 3, 5)):
+        for k in keys:
+            out.append(cha(k, n))
+    out += [cha('char', 6), cha('ushort', 6)] if q else []
+    out += [st(IN, cha('char', 4), cha('ushort', 4)), arr(cha('char', 4), 2), arr(cha('int', 3), None), st(IN, cha('char', None)),
+            un(cha('char', 4), IN), st(cha('uint', 3), CH), arr(st(cha('uchar', 3), CH), 2)]
+    if not q:
+        out += [arr(cha('ushort', 4), 2), arr(cha('uint', 3), None), arr(cha('schar', 5), 2), st(IN, cha('ushort', None)), st(IN, cha('int', None)),
+                st(st(cha('char', 4)), IN), un(IN, cha('int', 3)), pk(CH, cha('ushort', 4), CH), arr(arr(cha('char', 3), 2), 2),
+                st(anon(st(cha('char', 4), CH)), cha('uint', 2))]
+    return out
+
+
 def packed_ptr_offsets(t, base=0, acc=None):
     """Byte offsets of the pointer leaves of a type whose structs are all packed without _Alignas (trivial layout);
     None when the layout is not trivial.  Used for the coverage guard 'a pointer at every offset mod 8'."""
@@ -315,12 +368,12 @@ def packed_ptr_offsets(t, base=0, acc=None):
     return acc
 
 
-FAMILIES = ("base", "packed", "alignas", "unnamed-bitfield", "wide-bitfield", "addr")
+FAMILIES = ("base", "packed", "alignas", "unnamed-bitfield", "wide-bitfield", "addr", "float", "string")
 
 
 def universe(tier):
-    """[(type, static_only, bounds, family, ptrbounds)] in a deterministic simplest-first order; bounds = ((atoms,
-    designated items), ..): a spelling is enumerated when it fits one of the pairs.  ptrbounds: see gen_cases_for."""
+    """[(type, static_only, bounds, family, ptrbounds, kinds)] in a deterministic simplest-first order; bounds = ((atoms,
+    designated items), ..): a spelling is enumerated when it fits one of the pairs.  ptrbounds, kinds: see gen_cases_for."""
     q = tier == "quick"
     B1 = ((3, 2),) if q else ((4, 2), (3, 3))
     B2 = ((2, 1),) if q else ((2, 2), (3, 1))
@@ -328,12 +381,13 @@ def universe(tier):
     out = []
     seen = set()
 
-    def add(t, so, b, fam="base", ptrb=()):
+    def add(t, so, b, fam="base", ptrb=(), kinds='p'):
         if (t, so) not in seen:
             seen.add((t, so))
-            out.append((t, so, b, fam, ptrb))
+            out.append((t, so, b, fam, ptrb, kinds))
     for k in LP:
-        add(('sc', k), False, ((1, 0),), "base", ((1, 0),) if M.SC[k][0] == 'ptr' else ())
+        # scalars: every address-constant form for the pointers, every arithmetic constant of M.NUM_ATOMS for the others
+        add(('sc', k), False, ((1, 0),), "base", ((1, 0),), 'p' if M.SC[k][0] == 'ptr' else 'n')
     rots1 = (0, 7) if q else tuple(range(0, 17, 2))
     for r in rots1:
         for s in shapes_d1():
@@ -364,12 +418,22 @@ def universe(tier):
     for s in shapes_addr(tier):
         t = instantiate(s, 0)
         add(t, has_flex(t), BS, "addr", ((3, 0), (1, 1)) if q else ((4, 0), (2, 1)))
+    # floating / string families: the ordinary spellings inside BS, and inside XB one atom per spelling takes every
+    # arithmetic constant of M.NUM_ATOMS / every string variant of string_variants()
+    XB = ((2, 0), (1, 1)) if q else ((3, 0), (2, 1))
+    for s in shapes_float(tier):
+        t = instantiate(s, 0)
+        add(t, has_flex(t), BS, "float", XB, 'n')
+    for s in shapes_string(tier):
+        t = instantiate(s, 0)
+        add(t, has_flex(t), BS, "string", XB, 's')
     return out
 
 
 # ---- initializer enumeration ---------------------------------------------------
 # Immutable trees: ('a', style) | ('s', elem, len, u8) | ('l', items, tc); items = ((desig|None, tree), ...)
-# lim = (designated items left, fancy spellings left, ranges left, explicit address-constant atoms left)
+# lim = (designated items left, fancy spellings left, ranges left, kinds of explicit atoms still allowed: a string over
+#        'p' address constants / 'n' arithmetic constants / 's' string variants, '' once the one explicit atom is used)
 
 def is_flex_arr(t):
     return t[0] == 'arr' and t[2] is None
@@ -429,11 +493,57 @@ def string_atoms(t, fancy):
     return out
 
 
+def string_variants(t, P, braced):
+    """String literals with an embedded null character (first / middle / last position, first two positions) and with
+    escape sequences / extended characters, for char array type t ('s' in P: the string family): every variant of
+    M.STRVARS at the lengths exact fit without terminator (n), exact fit with terminator (n-1), shorter (n-2); for an
+    unknown bound lengths 3 and 5; the encoding prefix follows the element type ("" and u8 for the three character
+    types, u, U, L).  braced: also each of them in braces."""
+    if 's' not in P:
+        return []
+    key, n = t[1][1], t[2]
+    lens = [5, 3] if n is None else [x for x in (n, n - 1, n - 2) if x >= 1]
+    out = []
+    for L in lens:
+        seen = set()
+        for var in M.STRVARS:
+            if var in ('esc3', 'esc7') and L != lens[0]:
+                continue
+            for u8 in ((False, True) if key in ('char', 'uchar', 'schar') and var in ('nulm', 'esc') and L == lens[0] else (False,)):
+                try:
+                    body = M.str_content(0, L, 'u8' if u8 else M.CHARLIKE[key], var)[0]
+                except M.Invalid:
+                    continue
+                if (body, u8) in seen:          # nul0 == nulm == null for L == 1, ...
+                    continue
+                seen.add((body, u8))
+                out.append(('s', key, L, u8, var))
+    if braced:
+        out += [('l', ((None, x),), False) for x in out]
+    return out
+
+
 def ptr_atoms(t, P):
-    """Every address-constant form of the model's table for a pointer leaf (address-constant families only: P > 0)."""
-    if P > 0 and t[0] == 'sc' and M.SC[t[1]][0] == 'ptr':
+    """Explicit atoms for a scalar leaf (P = kinds of explicit atoms still available in this spelling, '' = none):
+    'p': every address-constant form of the model's table for a pointer leaf (address-constant families);
+    'n': every arithmetic constant of M.NUM_ATOMS whose conversion to the leaf type C11 defines (floating family)."""
+    if not P or t[0] not in ('sc', 'bf'):
+        return []
+    kind = M.SC[t[1]][0]
+    if 'p' in P and t[0] == 'sc' and kind == 'ptr':
         return [('a', ('pa', j)) for j in range(len(M.PTR_ATOMS[t[1]]))]
+    if 'n' in P and kind != 'ptr':
+        return [('a', ('na', j)) for j in _num_atoms_for(t)]
     return []
+
+
+_NAF = {}
+
+
+def _num_atoms_for(t):
+    if t not in _NAF:
+        _NAF[t] = M.num_atoms_for(t)
+    return _NAF[t]
 
 
 def gen_direct(t, b, lim, cross=False):
@@ -449,11 +559,13 @@ def gen_direct(t, b, lim, cross=False):
         if F > 0:
             yield ('l', ((None, ('a', 'plain')),), False), 1, (D, F - 1, R, P)
         for tree in ptr_atoms(t, P):
-            yield tree, 1, (D, F, R, P - 1)
+            yield tree, 1, (D, F, R, '')
         return
     if k == 'arr' and t[1][0] == 'sc' and t[1][1] in M.CHARLIKE:
         for tree, f in string_atoms(t, F > 0):
             yield tree, 1, (D, F - f, R, P)
+        for tree in string_variants(t, P, True):
+            yield tree, 1, (D, F, R, '')
     for items, used, lim2 in gen_items(t, b, lim, cross):
         yield ('l', items, False), used, lim2
 
@@ -483,9 +595,10 @@ def gen_items(root, budget, lim, cross=False):
                 if level == 0:
                     cands = gen_direct(t, b, lim2, cross)
                 elif t[0] in ('sc', 'bf'):
-                    cands = [(('a', 'plain'), 1, lim2)] + [(tr, 1, lim2[:3] + (lim2[3] - 1,)) for tr in ptr_atoms(t, lim2[3])]
+                    cands = [(('a', 'plain'), 1, lim2)] + [(tr, 1, lim2[:3] + ('',)) for tr in ptr_atoms(t, lim2[3])]
                 elif t[0] == 'arr' and t[1][0] == 'sc' and t[1][1] in M.CHARLIKE:
-                    cands = [(tree, 1, lim2) for tree, f in string_atoms(t, False)]
+                    cands = [(tree, 1, lim2) for tree, f in string_atoms(t, False)] + [
+                        (tree, 1, lim2[:3] + ('',)) for tree in string_variants(t, lim2[3], False)]
                 else:
                     cands = []
                 nxt = M.advance(root, p)
@@ -513,19 +626,21 @@ def ndesig(tree):
     return sum((1 if d else 0) + ndesig(x) for d, x in tree[1])
 
 
-def gen_cases_for(t, bounds, ptrbounds=()):
+def gen_cases_for(t, bounds, ptrbounds=(), kinds='p'):
     """All top-level initializers for type t within `bounds`.  yields (tree, trailing-comma variant flag).
-    ptrbounds: further (atoms, designated items) pairs inside which one pointer atom per spelling additionally takes
-    every address-constant form of M.PTR_ATOMS (style ('pa', j)); only spellings that contain such an atom are new."""
+    ptrbounds: further (atoms, designated items) pairs inside which ONE atom per spelling additionally takes every
+    explicit form of the enabled kinds: 'p' a pointer atom takes every address-constant form of M.PTR_ATOMS (style
+    ('pa', j)); 'n' an arithmetic atom takes every constant of M.NUM_ATOMS (style ('na', j)); 's' a string literal
+    takes every variant of string_variants().  Only spellings that contain such an atom are new."""
     for bi, (atoms, dmax) in enumerate(bounds):
-        for tree, used, lim in gen_direct(t, atoms, (dmax, 1, 1, 0), cross=(t[0] == 'sc')):
+        for tree, used, lim in gen_direct(t, atoms, (dmax, 1, 1, ''), cross=(t[0] == 'sc')):
             if bi and any(used <= a and dmax - lim[0] <= d for a, d in bounds[:bi]):
                 continue
             yield tree, False
             if tree[0] == 'l' and used <= 1 and not has_tc(tree):
                 yield tree, True
     for bi, (atoms, dmax) in enumerate(ptrbounds):
-        for tree, used, lim in gen_direct(t, atoms, (dmax, 1, 1, 1), cross=False):
+        for tree, used, lim in gen_direct(t, atoms, (dmax, 1, 1, kinds), cross=False):
             if lim[3] or (bi and any(used <= a and dmax - lim[0] <= d for a, d in ptrbounds[:bi])):
                 continue
             yield tree, False
@@ -562,7 +677,9 @@ def dump_expr(var, acc, lt):
     kind = M.SC[lt[1]][0]
     e = var + acc
     if kind == 'flt':
-        return "(long)(%s * 16)" % e
+        # bytewise: the 4 / 8 / 10 significant bytes of the object (long double: two slots, bytes 0..7 and 8..9)
+        off, n = {'float': (0, 4), 'double': (0, 8)}.get(lt[1]) or ((0, 8) if lt[2] == 'lo' else (8, 2))
+        return "c05_fb(&%s, %d, %d)" % (e, off, n)
     if kind == 'ptr':
         return "FN(pdec)((void *)%s)" % e
     if kind == 'bool' and lt[0] == 'bf':
@@ -596,7 +713,7 @@ def expected(c):
 # claim to be GCC, which would silently un-pack every packed struct of the chibicc twin.
 UNIT_HEAD = """int FN(gi); int FN(ga)[4]; struct GS { int k; int m; int n[2]; } FN(gs); char FN(gc)[8]; int FN(gm)[2][3];
 int FN(fn0)(void) { return 0; } int FN(fn1)(void) { return 1; }
-long FN(pdec)(void *);
+long FN(pdec)(void *); long c05_fb(void *, int, int);
 """
 
 
@@ -625,14 +742,16 @@ def build_driver(cases):
         e = expected(c)
         rows.append("{cc_c%d, ref_c%d, %d, %d, %d}" % (i, i, len(e), len(E), 1 if c.static_only else 2))
         E += e
-    d.append("static const long E[] = {%s};" % ",".join("%dL" % v for v in E))
+    d.append("/* bytes off .. off+n-1 of a floating object, little endian (n <= 8) */\n"
+             "long c05_fb(void *p, int off, int n) { unsigned long v = 0; for (int i = n - 1; i >= 0; i--) v = v << 8 | ((unsigned char *)p)[off + i]; return (long)v; }")
+    d.append("static const long E[] = {%s};" % ",".join("%dL" % v if abs(v) < (1 << 62) else "(long)0x%xUL" % (v & ((1 << 64) - 1)) for v in E))
     d.append("static const struct { void (*cc)(long *); void (*ref)(long *); int n, off, k; } C[] = {%s};" % ",\n".join(rows))
     d.append(r"""
 /* Fills the DIRTY_N bytes below main's stack pointer - exactly the memory the next callee's frame (return address,
    saved %rbp, locals) will occupy - with one byte value.  Every case function is called once after a fill with 0xA5 and
    once after a fill with 0x5A, so what an automatic object's unmentioned bytes show never depends on which functions
    ran before (batch run and single-case replay see the same stack), and a byte that happens to equal one pattern
-   differs from the other (0xA5.. read as a double/long double dumps as 0, 0x5A.. does not). */
+   differs from the other. */
 #define DIRTY_N 32768
 #define DIRTY(pat) __asm__ volatile("lea -%c1(%%rsp), %%rdi\n\tmov %1, %%ecx\n\tmovzbl %b0, %%eax\n\trep stosb" \
                                     : : "q"((unsigned char)(pat)), "i"(DIRTY_N) : "rdi", "rcx", "rax", "memory", "cc")
@@ -676,13 +795,15 @@ def run_cases(chibicc, wd, name, cases):
        refrej: [idx]                    cases gcc rejects
        dis:    {idx: [lines]}           model/gcc disagreement
        viol:   {idx: [(k, j, exp, got)]}
-       crash:  [idx]                    chibicc- or gcc-compiled case function crashed at run time"""
-    res = {"ccfail": [], "refrej": [], "dis": {}, "viol": {}, "crash": [], "ran": 0}
+       crash:  [idx]                    chibicc- or gcc-compiled case function crashed at run time
+       ccfail_batch: [([idx..], status, stderr)]  minimal sets of cases that chibicc compiles one by one but not together
+                                        (a compiler that damages its own heap on one case and notices on a later one)"""
+    res = {"ccfail": [], "refrej": [], "dis": {}, "viol": {}, "crash": [], "ran": 0, "ccfail_batch": []}
     os.makedirs(wd, exist_ok=True)
     ctx = _C()
     ctx.chibicc = chibicc
     live = list(range(len(cases)))
-    for attempt in range(4):
+    for attempt in range(10):
         sub = [cases[i] for i in live]
         r = twin.twin_run(ctx, wd, name, build_unit(sub), build_driver(sub), run_timeout=300)
         if r["status"] == "cc-fail":
@@ -690,7 +811,20 @@ def run_cases(chibicc, wd, name, cases):
                 continue            # a loaded machine, not a verdict: compile the same batch again
             bad = find_ccfail(chibicc, wd, sub)
             if not bad:
-                raise core.HarnessError("chibicc fails on a batch but on none of its cases alone: %s" % r["stderr"][-500:])
+                # no single case fails: narrow the batch to a minimal set of cases that fails together, report that set
+                # (when gcc accepts it) and go on with the rest of the batch
+                grp, stt, err = min_failing_subbatch(chibicc, wd, sub)
+                if grp is None:
+                    raise core.HarnessError("chibicc fails on a batch once, but not again, and on none of its cases alone: %s" % r["stderr"][-500:])
+                if gcc_accepts_all(wd, [sub[j] for j in grp]):
+                    res["ccfail_batch"].append(([live[j] for j in grp], stt, err))
+                else:
+                    res["refrej"] += [live[j] for j in grp]
+                gs = set(grp)
+                live = [x for j, x in enumerate(live) if j not in gs]
+                if not live:
+                    return res
+                continue
             badset = set(j for j, _, _ in bad)
             # only a finding when gcc accepts the single case (checked in one go first)
             allok = gcc_accepts_all(wd, [sub[j] for j, _, _ in bad])
@@ -775,6 +909,62 @@ def find_ccfail(chibicc, wd, cases):
         if stt != 0:
             bad.append((j, "as", err))
     return bad
+
+
+def cc_compiles(chibicc, wd, cases):
+    """Compile the cases as ONE unit named unit.c in a directory of its own (the replay artefact uses the same names, so
+    the compiler sees the same strings): 0 when cc1 and as succeed, else (status, stderr)."""
+    d = os.path.join(wd, "mb")
+    os.makedirs(d, exist_ok=True)
+    with open(os.path.join(d, "unit.c"), "w") as f:
+        f.write(twin.PRELUDE + build_unit(cases))
+    for tmo in (120, 1200):
+        stt, out, err = core.run_limited([chibicc, "-cc1", "-DPFX=cc_", "-cc1-input", "unit.c", "-cc1-output", "cc.s", "unit.c"], cwd=d, timeout=tmo)
+        if stt != "timeout":
+            break
+    if stt != 0:
+        return stt, err
+    stt, out, err = core.run_limited(["as", "-o", "cc.o", "cc.s"], cwd=d, timeout=600)
+    if stt == "timeout":
+        raise core.HarnessError("`as` does not finish on a batch within 600 s")
+    return ("as", err) if stt != 0 else 0
+
+
+def min_failing_subbatch(chibicc, wd, cases, maxruns=200):
+    """ddmin over a batch that chibicc does not compile although it compiles each case alone: -> (indices of a locally
+    minimal failing subset, status, stderr), (None, ..) when the whole batch does not fail again."""
+    cur = list(range(len(cases)))
+    r = cc_compiles(chibicc, wd, cases)
+    if r == 0:
+        return None, None, None
+    last = r
+    n, runs = 2, 0
+    while len(cur) >= 2 and runs < maxruns:
+        size = (len(cur) + n - 1) // n
+        parts = [cur[i:i + size] for i in range(0, len(cur), size)]
+        hit = None
+        for part in parts:                                  # a part alone
+            if len(part) < len(cur):
+                runs += 1
+                r = cc_compiles(chibicc, wd, [cases[j] for j in part])
+                if r != 0:
+                    hit, last, n = part, r, 2
+                    break
+        if hit is None and n > 2:
+            for part in parts:                              # the complement of a part
+                rest = [j for j in cur if j not in set(part)]
+                runs += 1
+                r = cc_compiles(chibicc, wd, [cases[j] for j in rest])
+                if r != 0:
+                    hit, last, n = rest, r, max(n - 1, 2)
+                    break
+        if hit is not None:
+            cur = hit
+            continue
+        if n >= len(cur):
+            break
+        n = min(len(cur), 2 * n)
+    return cur, last[0], last[1]
 
 
 def gcc_accepts_all(wd, cs):
@@ -949,10 +1139,12 @@ def tree_reductions(x):
             yield ('a', 'plain')
         return
     if x[0] == 's':
+        if x[4:]:
+            yield x[:4]
         if x[2] > 1:
-            yield ('s', x[1], x[2] - 1, x[3])
+            yield ('s', x[1], x[2] - 1, x[3]) + x[4:]
         if x[3]:
-            yield ('s', x[1], x[2], False)
+            yield ('s', x[1], x[2], False) + x[4:]
         return
     items = x[1]
     if len(items) == 1 and items[0][0] is None:
@@ -1066,7 +1258,7 @@ def work_types(args):
     os.makedirs(wd, exist_ok=True)
     summ = {"cases": 0, "judged": 0, "nontrivial": set(), "undefined": 0, "refrej": 0, "dis": 0, "leaves": 0,
             "fails": [], "flagcount": {}, "incomplete": False, "samples": [], "invalid": 0, "dis_samples": [], "case_samples": [],
-            "famcount": {}}
+            "famcount": {}, "batchfails": []}
     batch = []
     bno = [0]
 
@@ -1084,6 +1276,10 @@ def work_types(args):
             if len(summ["dis_samples"]) < 3:
                 summ["dis_samples"].append((batch[i][0].text, M.decl(batch[i][0].ty, "x"), r["dis"][i][:3]))
         rej = set(r["refrej"]) | set(r["dis"])
+        for idxs, stt, err in r["ccfail_batch"]:
+            rej |= set(idxs)            # not judged one by one: reported together
+            summ["batchfails"].append((status_class(stt), [(batch[i][0].ty, batch[i][0].static_only, batch[i][0].tree, batch[i][0].tc) for i in idxs],
+                                       (err or "")[-300:]))
         failed = outcomes(r, [c for c, _ in batch])
         for i, (c, key) in enumerate(batch):
             if i in rej:
@@ -1099,11 +1295,11 @@ def work_types(args):
                 summ["fails"].append((failed[i], c.ty, c.static_only, c.tree, c.tc, c.text, sorted(c.flags)))
         del batch[:]
 
-    for t, so, bounds, fam, ptrb in group:
+    for t, so, bounds, fam, ptrb, kinds in group:
         if time.time() > deadline:
             summ["incomplete"] = True
             break
-        for tree, tc in gen_cases_for(t, bounds, ptrb):
+        for tree, tc in gen_cases_for(t, bounds, ptrb, kinds):
             try:
                 c = make_case(t, so, tree, tc)
             except M.Invalid as e:
@@ -1134,10 +1330,26 @@ def work_types(args):
 def count_types(args):
     group = args
     n = 0
-    for t, so, bounds, fam, ptrb in group:
-        for _ in gen_cases_for(t, bounds, ptrb):
+    for t, so, bounds, fam, ptrb, kinds in group:
+        for _ in gen_cases_for(t, bounds, ptrb, kinds):
             n += 1
     return n
+
+
+REPLAY_BATCH = r"""# compiles the unit (several valid cases, each of which compiles alone) with the chibicc under test
+gcc -std=gnu11 -w -fsyntax-only -DPFX=ref_ unit.c || exit 0
+$CHIBICC -cc1 -DPFX=cc_ -cc1-input unit.c -cc1-output cc.s unit.c || exit 1
+as -o cc.o cc.s 2>/dev/null || exit 1
+exit 0
+"""
+
+
+def plain_desc(text):
+    """Description lines go through `echo` of /bin/sh in the tools (which interprets backslash sequences) and through
+    grep in a C locale: keep them free of backslashes and non-ASCII characters.  The replay unit has the exact text."""
+    if "\\" in text:
+        text = text.replace("\\", "(bs)") + "  [(bs) = backslash]"
+    return text.encode("ascii", "backslashreplace").decode().replace("\\", "(bs)")
 
 
 REPLAY = r"""# rebuilds the single case with the chibicc under test and gcc, runs the dump driver
@@ -1158,9 +1370,26 @@ def run(ctx):
     import time
     uni = universe(ctx.tier)
     pk_off = set()
-    for t, so, b, fam, ptrb in uni:
+    for t, so, b, fam, ptrb, kinds in uni:
         if fam == "packed" and not so:
             pk_off |= set(o % 8 for o in packed_ptr_offsets(t))
+    # vacuity guard of the floating family: the constants must be able to tell a conversion that goes through double
+    # (or float) first from a direct one, for long double and for float leaves, and in both directions of the tie
+    witness = {}
+    for leaf, via in (('ldouble', 'double'), ('float', 'double'), ('double', 'float'), ('ldouble', 'float')):
+        w = []
+        for j, (txt, src, exact) in enumerate(M.NUM_ATOMS):
+            if exact == 'negzero':
+                continue
+            v = M.num_atom(j)[1].frac
+            try:
+                if M.fbits(v, leaf) != M.fbits(M.fvalue(v, via), leaf):
+                    w.append(txt)
+            except M.Invalid:
+                w.append(txt)
+        witness["%s-leaf-via-%s" % (leaf, via)] = len(w)
+        if len(w) < 3:
+            raise core.HarnessError("vacuous: only %d arithmetic constants tell a %s leaf initialised through %s apart" % (len(w), leaf, via))
     # groups of types; deterministic, VERIF_SEED permutes only the order in which groups are scheduled
     groups = core.chunks(uni, 6 if ctx.tier == "quick" else 4)
     order = list(range(len(groups)))
@@ -1180,7 +1409,9 @@ def run(ctx):
     famcount = {}
     fails = []
     incomplete = 0
+    batchfails = []
     for s in results:
+        batchfails += s["batchfails"]
         for k in tot:
             tot[k] += s[k]
         for k, v in s["flagcount"].items():
@@ -1272,6 +1503,7 @@ def run(ctx):
             else:
                 desc = "valid declaration `%s` -> %s; %d enumerated cases attributed" % (decl_s, dev, len(expl))
             files = {"unit.c": single_unit(c), "driver.c": build_driver([c])}
+            desc = plain_desc(desc)
             for _ in range(len(expl)):
                 ctx.violation(sig, desc, files=files, replay=REPLAY)
     # cases left when the shrink rounds are used up keep their own (unshrunk) feature sets as signature
@@ -1282,8 +1514,22 @@ def run(ctx):
                 ctx.violation(sig, "", None, None)
                 continue
             c = make_case(f[1], f[2], f[3], f[4])
-            ctx.violation(sig, "failing case not shrunk (round limit): static %s = %s -> %s" % (M.decl(c.ty, "s"), c.text, k[1]),
+            ctx.violation(sig, plain_desc("failing case not shrunk (round limit): static %s = %s -> %s" % (M.decl(c.ty, "s"), c.text, k[1])),
                           files={"unit.c": single_unit(c), "driver.c": build_driver([c])}, replay=REPLAY)
+
+    # sets of valid cases that chibicc compiles one by one but not as one unit
+    nbf_flaky = 0
+    for bi, (cls, group, err) in enumerate(sorted(batchfails, key=lambda b: (len(b[1]), repr(b[1])))):
+        cs = [make_case(*g) for g in group]
+        r = cc_compiles(ctx.chibicc, ctx.mkdir("bf%d" % bi), cs)
+        if r == 0:
+            nbf_flaky += 1          # does not fail again in a fresh directory: counted, not reported
+            continue
+        ctx.violation("C05|several-valid-cases-in-one-unit|plain|%s-only-in-combination" % status_class(r[0]),
+                      plain_desc("chibicc compiles each of these %d declarations alone but not in one unit (%s): %s" % (
+                          len(cs), (r[1] or "").strip()[-120:], "; ".join("static %s = %s" % (M.decl(c.ty, "s"), c.text) for c in cs[:4]))),
+                      files={"unit.c": twin.PRELUDE + build_unit(cs)}, replay=REPLAY_BATCH)
+    ctx.cover(batch_only_compile_failures=len(batchfails), batch_only_compile_failures_not_reproducible=nbf_flaky)
 
     import sys
     print("[C05] phases: enumerate+run %.1f s, classify+shrink %.1f s (%d rounds)" % (t_enum, time.time() - t_cls, rnd), file=sys.stderr)
@@ -1294,6 +1540,8 @@ def run(ctx):
               failing_cases_known_by_own_signature=nprefiltered,
               form_counts=flagcount, family_counts=famcount,
               packed_pointer_offsets_mod8=sorted(pk_off), address_constant_forms=sum(len(v) for v in M.PTR_ATOMS.values()),
+              arithmetic_constants=len(M.NUM_ATOMS), constants_rounding_differently_through_double=witness,
+              string_variants=list(M.STRVARS), floating_dump="bytewise: float 4, double 8, long double 10 bytes",
               stack_fill="every call of a case function is preceded by a fill of the 32 KiB below the caller's stack pointer; "
                          "each case runs once with fill byte 0xA5 and once with 0x5A (batch run and replay artefact alike)",
               rule="one case = (type, initializer spelling) compiled as a static and an automatic object and dumped leaf by "
@@ -1316,11 +1564,27 @@ def run(ctx):
                      "string literal+1, &string[2], function designators f, &f, *f, **f, &*f, cast), also at brace-elision "
                      "levels; addr = pointer arrays/members reached by elision (char *t[2][2], struct {char *n[2]; int k;}, ..) "
                      "and char[2][3] inside structs/arrays; unnamed-bitfield = structs/unions of 1-3 members with one unnamed "
-                     "bit-field (:3, :0, unsigned char :5) at every position; wide-bitfield = bit-fields of width 33, 40, 64" % (
+                     "bit-field (:3, :0, unsigned char :5) at every position; wide-bitfield = bit-fields of width 33, 40, 64; "
+                     "float = floating leaves dumped bytewise (4/8/10 bytes); one arithmetic atom per spelling (<= (2,0)/(1,1) "
+                     "quick, (3,0)/(2,1) thorough; scalars: (1,0)) takes every constant of models/c05_init.NUM_ATOMS (0.1, 0.1f, "
+                     "0.1L, 1.0L/3, casts, midpoints of float and double +- 2^-60..2^-63, exact ties, 2^24+1, 2^53+1, 2^64-1, "
+                     "2^63-1 as floating and integer constants, -0.0, truncating values, subnormals, FLT_MAX) on every "
+                     "arithmetic scalar type and on float/double/long double arrays, structs, unions, packed structs, arrays "
+                     "of structs, flexible arrays, bit-fields; string = one string literal per spelling (same bounds) takes "
+                     "every variant {NUL at first/middle/last position, at positions 0 and 1, escapes \\n \\377 \\x7f "
+                     "\\\\ \\\" \\0 \\t + e-acute + euro sign + U+1F600, three variants} x {exact fit, exact with terminator, shorter; 3 and 5 for an unknown "
+                     "bound} x {\"\", u8 (char types), u, U, L} for char/signed char/unsigned char/char16_t/char32_t/wchar_t "
+                     "arrays of bound 4, 6, unknown (thorough also 2, 3, 5), plain, braced, designated, as members, 2-D rows, in "
+                     "unions, as flexible array member" % (
                          ctx.tier, len(LP), "2" if ctx.tier == "quick" else "9",
                          "(3,2)" if ctx.tier == "quick" else "(4,2) or (3,3)", "(2,1)" if ctx.tier == "quick" else "(2,2) or (3,1)"))
     if tot["judged"] == 0 or len(flagcount) < 6:
         raise core.HarnessError("vacuous: judged=%d forms=%s" % (tot["judged"], sorted(flagcount)))
+    if not incomplete:
+        need = ('string-nul', 'string-escape', 'num:float', 'num:double', 'num:ldouble', 'num:integer', 'to:float', 'to:double',
+                'to:ldouble', 'to:integer')
+        if any(not flagcount.get(k) for k in need):
+            raise core.HarnessError("vacuous: forms %s never judged" % [k for k in need if not flagcount.get(k)])
     if pk_off != set(range(8)):
         raise core.HarnessError("vacuous: packed family has pointers at offsets mod 8 %s only" % sorted(pk_off))
     if not incomplete and (min(famcount.get(k, 0) for k in FAMILIES) == 0 or not flagcount.get('strlit-address')
@@ -1330,5 +1594,7 @@ def run(ctx):
         raise core.HarnessError("model/gcc disagree or gcc rejects on %d+%d of %d cases: generator or model is wrong" %
                                 (tot["dis"], tot["refrej"], tot["cases"]))
     ctx.assume("gcc 12 -O0 and the 6.7.9 model agree on every judged case (disagreements are skipped and counted)")
+    ctx.assume("floating constants and conversions are correctly rounded, ties to even (Annex F / IEC 60559; what gcc and the "
+               "x86-64 hardware do); C11 6.3.1.5 and 6.4.4.2 alone would also allow the other neighbour")
     ctx.assume("re-activating a union member after another member was initialized is treated as not defined by the property")
     ctx.assume("layout of int/char arrays and struct{int;int;int[2]} used as address-constant targets is the same for both compilers")
